@@ -1595,13 +1595,76 @@ pub fn run_history(prop: Prop, p: &Profile, tape: &Tape) -> Runner {
             crate::props::probes::exits(&mut r.judge, &w, &b, "seed");
         }
     }
-    for op in tape.ops.iter().take(p.max_ops) {
+    // one history in sixteen is upgraded in the middle: the version record is set to a release
+    // whose stored formats are the current ones, `migrate` is called (with no overrides, with the
+    // approver list in another order, or with a fee account replaced under the installed rate)
+    // and the history goes on over the migrated book, judged by the same observers
+    let n_ops = tape.ops.len().min(p.max_ops);
+    let migrate_at = if !matches!(prop, Prop::C12 | Prop::C13 | Prop::C14 | Prop::C15) && tape.world[28] % 16 == 3 && n_ops >= 4 {
+        Some(n_ops / 2 + (tape.world[29] as usize % 3))
+    } else {
+        None
+    };
+    for (i, op) in tape.ops.iter().take(p.max_ops).enumerate() {
+        if Some(i) == migrate_at {
+            mid_history_migration(&mut r, &tape.world);
+        }
         let book = r.book();
         if let Some(step) = it.concretise(op, &book) {
             r.step(step);
         }
     }
     r
+}
+
+fn mid_history_migration(r: &mut Runner, w: &[u32; WORLD_WORDS]) {
+    let book = r.book();
+    let cfg = match &book.cfg {
+        Some(c) => c.clone(),
+        None => return,
+    };
+    let open = book.asks.len() + book.bids.len();
+    match pick(w[29].rotate_left(9), 4) {
+        0 => {}
+        k => { r.step(Step::SetVersion {
+            version: Some(["0.19.2", "1.0.0", "0.20.0"][k - 1].to_string()),
+            definition: "ats_smart_contract".into(),
+        }); }
+    }
+    let mut ch = crate::wire::CfgChange::default();
+    match pick(w[29].rotate_left(17), 5) {
+        0 | 1 => {}
+        2 => {
+            if cfg.approvers.len() > 1 {
+                let mut v = cfg.approvers.clone();
+                v.reverse();
+                ch.approvers = Some(v);
+            }
+        }
+        k => {
+            let cur = if k == 3 { &cfg.ask_fee } else { &cfg.bid_fee };
+            if let Some((acc, rate)) = cur {
+                let other = POOL[3..].iter().find(|x| **x != acc.as_str()).unwrap().to_string();
+                if k == 3 {
+                    ch.ask_fee_rate = Some(rate.clone());
+                    ch.ask_fee_account = Some(other);
+                } else {
+                    ch.bid_fee_rate = Some(rate.clone());
+                    ch.bid_fee_account = Some(other);
+                }
+                r.judge.label("mid-history-migration-replaces-fee-account");
+            }
+        }
+    }
+    let out = r.step(Step::Migrate { msg: ch.to_migrate() });
+    if out.map(|o| o.accepted()).unwrap_or(false) {
+        r.judge.label("mid-history-migration");
+        if open > 0 {
+            r.judge.label("mid-history-migration-over-open-orders");
+        }
+    } else {
+        r.judge.label("mid-history-migration-refused");
+    }
 }
 
 /// one line per request kind: how the history went (for samples in evidence)
